@@ -169,3 +169,46 @@ Proof.
     + cbn [last_id List.length]. lia.
     + rewrite last_id_length by discriminate. cbn [List.length]. lia.
 Qed.
+
+(** ** every script: right after a Break, the error is handed over (or returned) *)
+Definition next_ok (e : N) (rest : list call) : Prop :=
+  match rest with
+  | [] => True
+  | CMerge _ _ _ o _ :: _ => o = e
+  | _ :: _ => False
+  end.
+
+Lemma tail_first {X} (cr : X -> N -> Prop) e (q : prog X) :
+  Tail cr e q -> forall script s ext, snd (run script q s) = s ++ ext ->
+  next_ok e ext /\ (ext = [] -> cr (fst (run script q s)) e).
+Proof.
+  intros H script s ext Hext. destruct H as [e x Hx|e a acc oalg loc k Hk]; cbn [run fst snd] in *.
+  - assert (ext = []) by (apply (app_inv_head s); rewrite app_nil_r; symmetry; exact Hext). subst ext. split; [exact I|intros _; exact Hx].
+  - destruct (run_extends script (k (N.of_nat (List.length s)) (script (N.of_nat (List.length s)))) (s ++ [CMerge a acc oalg e loc])) as [ext' Hext'].
+    rewrite Hext', <- app_assoc in Hext. apply app_inv_head in Hext. subst ext. cbn [app next_ok]. split; [reflexivity|discriminate].
+Qed.
+
+Theorem stops_next {X} (cr : X -> N -> Prop) (p : prog X) :
+  Stops cr p ->
+  forall script s ext, snd (run script p s) = s ++ ext ->
+  forall pre c post,
+    ext = pre ++ c :: post -> creates c = true -> script (N.of_nat (List.length s + List.length pre)) = false ->
+    next_ok (N.of_nat (List.length s + List.length pre)) post
+    /\ (post = [] -> cr (fst (run script p s)) (N.of_nat (List.length s + List.length pre))).
+Proof.
+  induction 1 as [x|c0 k0 _ IH Hc]; intros script s ext Hext pre c post Hdec Hcr Hsc; cbn [run] in *.
+  - cbn [snd] in Hext. assert (Hx : ext = []) by (apply (app_inv_head s); rewrite app_nil_r; symmetry; exact Hext).
+    rewrite Hx in Hdec. destruct pre; discriminate.
+  - set (i := N.of_nat (List.length s)) in *.
+    destruct (run_extends script (k0 i (script i)) (s ++ [c0])) as [ext' Hext'].
+    assert (Hx : ext = c0 :: ext').
+    { rewrite Hext' in Hext. rewrite <- app_assoc in Hext. apply app_inv_head in Hext. symmetry. exact Hext. }
+    rewrite Hx in Hdec. clear Hx Hext. destruct pre as [|c1 pre'].
+    + cbn [app] in Hdec. inversion Hdec; subst c0 post. cbn [List.length] in *. rewrite Nat.add_0_r in *. fold i in Hsc |- *.
+      rewrite Hsc in *. apply (tail_first cr i (k0 i false) (Hc Hcr i) script (s ++ [c]) ext' Hext').
+    + cbn [app] in Hdec. inversion Hdec; subst c1 ext'.
+      specialize (IH i (script i) script (s ++ [c0]) (pre' ++ c :: post) Hext' pre' c post eq_refl Hcr).
+      rewrite app_length in IH. cbn [List.length] in IH, Hsc |- *.
+      replace (List.length s + 1 + List.length pre')%nat with (List.length s + S (List.length pre'))%nat in IH by lia.
+      apply IH. exact Hsc.
+Qed.
